@@ -6,6 +6,11 @@ ROOT = os.path.dirname(os.path.dirname(os.path.abspath(__file__)))
 patch = os.path.abspath(sys.argv[1])
 props = sys.argv[2:]
 assert subprocess.run(["git", "-C", "/repo", "status", "--porcelain"], capture_output=True, text=True).stdout.strip() == "", "/repo not clean"
+import shutil, tempfile
+# evidence files describe runs on the unchanged tree: keep them out of the way while a seeded change is applied
+keep = tempfile.mkdtemp(prefix="evidence_keep_")
+for f in os.listdir(os.path.join(ROOT, "evidence")):
+    shutil.copy(os.path.join(ROOT, "evidence", f), keep)
 subprocess.run(["git", "-C", "/repo", "apply", patch], check=True)
 try:
     for p in props:
@@ -16,4 +21,7 @@ try:
             print("   " + l[:400])
 finally:
     subprocess.run(["git", "-C", "/repo", "apply", "-R", patch], check=True)
+    for f in os.listdir(keep):
+        shutil.copy(os.path.join(keep, f), os.path.join(ROOT, "evidence", f))
+    shutil.rmtree(keep)
     assert subprocess.run(["git", "-C", "/repo", "status", "--porcelain"], capture_output=True, text=True).stdout.strip() == "", "/repo not clean after undo"
